@@ -34,6 +34,33 @@ class Obligation:
                 "where": self.where, "config": self.config, "kind": self.kind}
 
 
+class _Renamed:
+    def __init__(self, ctx, mapping):
+        self._ctx = ctx
+        self._map = mapping
+
+    def __getattr__(self, name):
+        return getattr(self._ctx, name)
+
+    def ob(self, rule, key, ok, detail="", where="", nontrivial=True, kind="violation"):
+        if rule in self._map:
+            return self._ctx.ob(self._map[rule], key, ok, detail, where, nontrivial, kind)
+        return None
+
+    def missing(self, rule, what):
+        if rule in self._map:
+            return self._ctx.missing(self._map[rule], what)
+        return None
+
+    def floor(self, rule, what, count, minimum):
+        if rule in self._map:
+            return self._ctx.floor(self._map[rule], what, count, minimum)
+
+    def view(self, path, rule=None):
+        return self._ctx.view(path, self._map.get(rule) if rule else None) if (rule is None or rule in self._map) else (
+            self._ctx.model().view(path) if self._ctx.model().has(path) else None)
+
+
 class Ctx:
     def __init__(self, prop, tier):
         self.prop = prop
@@ -76,6 +103,11 @@ class Ctx:
         o = Obligation(rule, "%s|%s" % (rule, key), bool(ok), detail, where, self.config, nontrivial, kind)
         self.obs.append(o)
         return o
+
+    def renamed(self, mapping):
+        """Proxy that files obligations of another property's rule function under this property's rule ids:
+        rules named in `mapping` are renamed, all others are dropped (they are decided under their own property)."""
+        return _Renamed(self, mapping)
 
     def missing(self, rule, what):
         """Fail closed: an anchor the rule hangs on does not exist."""
